@@ -18,7 +18,7 @@ def rT : TI := { text := ['t'], ty := 1, skip := true }
 /-- a clock token; `dot` = the next raw token contains '.' -/
 def rClock (t : List Char) (dot : Bool) : TI := { text := t, ty := 0, colon := true, micro := microSearch t, dotAfterSame := dot }
 /-- the fraction digits after the clock token -/
-def rFrac (t : List Char) (mic : List Char) : TI := { text := t, ty := 0, micro := some mic }
+def rFrac (t : List Char) (mic : List Char) (iv : Option Nat := none) : TI := { text := t, ty := 0, micro := some mic, intVal := iv }
 def rMerid (t : List Char) (me : List Char) : TI := { text := t, ty := 1, merid := some me }
 
 structure DateOk (y m d : Nat) : Prop where
@@ -76,10 +76,10 @@ theorem C01_iso_datetime (st : PSettings) (ho : isoOrder st.order) (y m d : Nat)
 /-- **C01_iso_fraction**: `YYYY-MM-DD[ T]hh:mm:ss.f…` — the fraction digits are a separate token; the assembled time
     text handed to `time_parser` is `clock ++ "." ++ first-six-digits` -/
 theorem C01_iso_fraction (st : PSettings) (ho : isoOrder st.order) (y m d : Nat) (hd : DateOk y m d)
-    (ty tm td tt tf mic : List Char) (hty : ty.length = 4) (withT : Bool) (tmv : DT)
+    (ty tm td tt tf mic : List Char) (hty : ty.length = 4) (withT : Bool) (tmv : DT) (iv : Option Nat)
     (htm : timeParser (tt ++ '.' :: mic) = .ok tmv)
     (htv : tmv.h ≤ 23 ∧ tmv.mi ≤ 59 ∧ tmv.s ≤ 59 ∧ tmv.us ≤ 999999) :
-    absParseToks st ([rY ty y, rS tm m true, rS td d true] ++ (if withT then [rT] else []) ++ [rClock tt true, rFrac tf mic]) =
+    absParseToks st ([rY ty y, rS tm m true, rS td d true] ++ (if withT then [rT] else []) ++ [rClock tt true, rFrac tf mic iv]) =
       .ok ({ y := y, mo := m, d := d, h := tmv.h, mi := tmv.mi, s := tmv.s, us := tmv.us }, if st.timeAsPeriod then .time else .day) := by
   have hmk := mkDT_time y m d tmv hd htv
   obtain ⟨hy1, hy2, hm1, hm2, hd1, hd2⟩ := hd
